@@ -247,9 +247,14 @@ def lemmas(ck):
 
 CONTRACTS = [CleanByDistance, PointPairwiseDist]
 LEVEL = "other"
-EXPLANATION = ("bounded run-time contract: separation, domination by an at-least-as-good remaining particle of the same group, group isolation and row preservation for Motl.clean_by_distance; "
+EXPLANATION = ("Motl.clean_by_distance on the real AST: the loop over groups as an arbitrary iteration, the greedy loop over the argsort order by a quantified inductive invariant (visited kept particles have cleared their "
+               "neighbourhood; every removed particle has a kept, earlier-ranked 'killer' within d - ghost function), exit facts give separation, domination with equal-or-better score and group isolation; "
+               "geom.point_pairwise_dist against its Euclidean spec. Bounded run-time contract in addition: separation, domination by an at-least-as-good remaining particle of the same group, group isolation and row preservation for Motl.clean_by_distance; "
                "threshold, separation, domination, score / 1-based position / angle lookup for tmana.scores_extract_particles on plateau-free maps")
-ASSUMPTIONS = ["exact-distance ties are excluded by tolerance 1e-9 as in the property's quantifier"]
+ASSUMPTIONS = ["exact-distance ties are excluded (requires, as in the property's quantifier); real arithmetic for distances and scores",
+               "assumed callee contracts: np.argsort (ascending permutation with inverse), np.unique(column) iterated as an arbitrary group value, Motl.get_motl_subset (rows of the group in order, index reset; proved under C08), "
+               "pd.concat((acc, piece)) appends the piece, boolean-mask .iloc selects exactly the marked rows; geom.point_pairwise_dist is used through its own contract (PointPairwiseDist + symmetry lemma)",
+               "tmana.scores_extract_particles is NOT under contract (KD-tree / DBSCAN / set-of-tuples monolith): bounded run only"]
 
 
 def run(ck):
